@@ -71,6 +71,12 @@ class TemplateStub:
         Tm0 = h.fresh("Tm0", 0, None, default=1.0 * float(core.unbox(self.Tn)) if not h.symbolic else None)
         if not self.free:
             h.assume(gt(Tp0, Tm0))
+            if vp is None:
+                # keep the guess inside (Tm0, gamma_- Tm0] so that the LTE re-centering branch
+                # of the initial-guess logic is decided (the guess only scales the residual)
+                th = self.th
+                h.assume(AND(le(Tp0 * Tp0 * (1 - vw * vw), Tm0 * Tm0),
+                             le(Tp0 * Tp0 * (1 - th.csqLowT(Tm0)), Tm0 * Tm0)))
         return [Tp0, Tm0]
 
 
@@ -92,6 +98,7 @@ def make_hydro(h, stubs=None, tranges=None, free_guess=False):
     hy.TMinLowT = th.freeEnergyLow.minPossibleTemperature[0]
     hy.rtol, hy.atol = 1e-6, 1e-10
     hy.template = TemplateStub(h, Tn, free=free_guess)
+    hy.template.th = th
     hy.vBracketLow = 1e-3
     hy.doesPhaseTraceLimitvmax = [False, False]
     hy.success = False
